@@ -314,7 +314,9 @@ func (s *Server) verifyConsensusFieldMain(cp *params.CaravelParams, seedHeader *
 		cd.cp = &yp.CaravelParams
 		cd.lbVld = certVldReader
 		cd.seed = certCon.Seed
-		cd.validatorThreshold = certCon.CertValThreshold
+		// the committee size of the certificate votes is the protocol's (what the voters' sortition uses, see
+		// getLookbackStakeInfo), not the value the look-back header's author wrote into its consensus data
+		cd.validatorThreshold = yp.CertValThreshold
 		ucCertificates, err := ExtractUconValidators(header, params.LookBackCert)
 		if err != nil {
 			logging.Error("VerifyHeader failed. Get ucCertificates from Look back block failed.", "Round", consensusData.Round, "RoundIndex", consensusData.RoundIndex, err)
@@ -685,7 +687,7 @@ func (s *Server) VerifyAcHeader(chain consensus.ChainReader, acHeader *types.Hea
 		seed:               seedConsData.Seed,
 		round:              currConsData.Round,
 		roundIndex:         chtCerts.RoundIndex,
-		validatorThreshold: seedConsData.CertValThreshold,
+		validatorThreshold: yp.CertValThreshold, // the protocol's, not the one declared by the seed header's author
 	}
 	err = s.verifyVotes(cd, chtCerts.ChamberCerts, chtCerts.CCAggrSig, uint32(Certificate), params.KindChamber, false)
 	if err != nil {
